@@ -334,3 +334,8 @@ PROPS["C09"]["quick"].append({"variant": "default", "cases": 4000, "worker_prop"
 PROPS["C09"]["thorough"].append({"variant": "default", "cases": 100000, "params": {"case_timeout": 120}, "worker_prop": "C14", "timeout": 3400})
 PROPS["C09"]["floors"]["any"]["probes_with_analysis"] = 5000
 PROPS["C14"]["floors"]["any"]["probes_with_analysis"] = 2000
+
+# C13 on declarative histories with random observation points (dense ... never), incl. the congruence-chain family
+PROPS["C13"]["quick"].append({"variant": "default", "cases": 30000, "params": {"hist": 1}, "timeout": 900})
+PROPS["C13"]["thorough"].append({"variant": "default", "cases": 1500000, "params": {"hist": 1}, "timeout": 3400})
+PROPS["C13"]["floors"]["any"].update({"declarative_histories": 10000, "family_congruence_chain": 1000})
